@@ -120,6 +120,42 @@ def cross_names(rng):
             "probes": True, "kind": "cross_names"}
 
 
+def cross_sends(rng):
+    """Machines that drive each other: callbacks of one instance send events to OTHER instances (which run them to
+    completion while the sender waits in the middle of its own transition), including back to a busy sender (queued
+    there in RTC mode).  Each machine must behave as its own definition says, whatever the others are in the middle of."""
+    scn = multi(rng, collide=False)
+    ncb = max(len(d["cbs"]) for d in scn["classes"])
+    script = {}
+    for c in rng.sample(range(1, ncb + 1), min(ncb, rng.randint(2, 5))):
+        sends = []
+        for _ in range(rng.randint(1, 2)):
+            if rng.random() < 0.8:
+                sends.append({"to": rng.choice([1, 2, 3]), "ev": rng.choice(EVS + ["nope"])})
+            else:
+                sends.append(rng.choice(EVS))
+        script[str(c)] = sends
+    # guards and validators stay free of side effects
+    for d in scn["classes"]:
+        for c, cb in enumerate(d["cbs"], start=1):
+            if cb["group"] in ("cond", "validators"):
+                script.pop(str(c), None)
+    scn["script"] = script
+    scn["budget"] = rng.randint(2, 4)
+    for st in scn["steps"]:
+        if st["op"] == "new":
+            st["opt"]["budget"] = scn["budget"]
+    # more traffic once the machines exist
+    born = [st for st in scn["steps"] if st["op"] == "new"]
+    for _ in range(rng.randint(3, 8)):
+        st = rng.choice(born)
+        scn["steps"].append({"op": "call", "i": st["i"], "api": "send",
+                             "ev": rng.choice(scn["classes"][st["cls"] - 1]["evlist"]), "gv": gen.rand_gv(rng)})
+    scn["kind"] = "cross_sends"
+    scn["probes"] = False
+    return scn
+
+
 def inherit(rng, extend):
     base = gen.rand_def(rng, provs=("sm",), dense=rng.choice([0.0, 0.5]), guards=False, validators=False, events=EVS,
                         styles=False, nstates=rng.randint(2, 3), finals=False)
@@ -221,6 +257,7 @@ def run(pid, tier, seed, replay):
     scns += [inherit(rng, extend=True) for _ in range(20 if quick else 200)]
     scns += [bags(rng) for _ in range(n // 2)]
     scns += [cross_names(rng) for _ in range(n // 2)]
+    scns += [cross_sends(rng) for _ in range(n)]
     rng.shuffle(scns)
     # the two-instance exhaustive model: all interleavings of two machines of one small definition
     ec.run_validate(chk, scns, "isolation: programs", shards=5 if quick else 12, featurize=featurize)
